@@ -156,7 +156,7 @@ def run(ctx):
     n = 200 if ctx.tier == 'quick' else 3000
     for k in range(n):
         one_case(ctx, k)
-        if ctx.n_new() >= 3:
+        if ctx.n_new(with_input_only=True) >= 3:
             break
     ctx.notes.append('maximality is decided per instance by the verified certificate cycleOK (theorem cycleOK_max: any n) on the '
                      'independent float64 MI of the smoothed estimates with tolerance 1e-6, and for n <= 7 additionally by exhaustive '
